@@ -390,6 +390,15 @@ pub fn run_case(out: &mut Out, prop: &str, case: &PairCase) -> Option<CaseResult
                 obs.push("1".into()); obs.push(c.to_string());
                 if cur != prev { out.monitor_fail(prop, "a rejected operation changed balances or ledgers", replay(k, "atomicity")); }
                 if prop == "C15" && *c == E_SLIPPAGE {
+                    // converse for deposits: a deposit whose two ratios satisfy the documented bound on the reported reserves is not refused for slippage
+                    if let POp::Provide { d0, d1, tol: Some(t), .. } = op {
+                        if prev.supply > 0 && *t <= DEC && *d0 > 0 && *d1 > 0 && prev.res[0] > 0 && prev.res[1] > 0 {
+                            let om = u512(DEC - *t);
+                            let a = u512(*d0) * u512(DEC) / u512(*d1) * om / u512(DEC); let b = u512(prev.res[0]) * u512(DEC) / u512(prev.res[1]);
+                            let c2 = u512(*d1) * u512(DEC) / u512(*d0) * om / u512(DEC); let e = u512(prev.res[1]) * u512(DEC) / u512(prev.res[0]);
+                            if a <= b && c2 <= e { out.monitor_fail("C15", "a deposit within its slippage tolerance (documented ratio bound on the reported reserves) was refused for slippage", replay(k, "tolerance converse")); }
+                        }
+                    }
                     // converse: requests within the limits are not rejected for slippage
                     if let (POp::Swap { belief: None, max_spread, .. }, Some(Ok(s))) = (op, &sim) {
                         let g = s.return_amount.u128() + s.swap_fee_amount.u128() + s.protocol_fee_amount.u128() + s.burn_fee_amount.u128();
@@ -478,8 +487,10 @@ pub fn gen_case(rng: &mut Rng, len: usize, bias: &Bias) -> PairCase {
             match rng.below(6) {
                 4 | 5 => { let small = rng.chance(1, 2);
                            let d = if small { 1000 + rng.below128(100_000) } else { magnitude(rng, 60).max(1) };
+                           // (d1 is drawn before the variant, as ever: the generated stream stays what it was)
+                           let d1 = if rng.chance(1, 2) { d } else { 1 + rng.below128(d.max(2)) };
                            let v = 1 + rng.below(4) as u8;
-                           POp::BadFundsProvide { who, d0: d, d1: if rng.chance(1, 2) { d } else { 1 + rng.below128(d.max(2)) }, variant: if v == 4 && d % 2 == 0 { 5 } else { v } } }
+                           POp::BadFundsProvide { who, d0: d, d1, variant: if v == 4 && d % 2 == 0 { 5 } else { v } } }
                 0 if !kinds[dirn as usize] => { let d = 1000 + rng.below128(1_000_000); POp::BadFundsSwap { who, dir: dirn, declared: d, sent: match rng.below(3) { 0 => d - 1, 1 => d + 1, _ => d } } }
                 1 if !kinds[0] || !kinds[1] => POp::BadFundsProvide { who, d0: 1000 + rng.below128(100_000), d1: 1000 + rng.below128(100_000), variant: 0 },
                 2 => POp::ForeignHookSwap { who, x: rng.below128(1_000_000) },
